@@ -210,7 +210,7 @@ class CoreGen:
             # plain arguments (a calldata word, a literal, an environment value): nothing z3 could fold further than the
             # driver's simplifier, so that the callee's branches on them are symbolic / concrete on both sides alike
             out += self.plain() + [("push", 0x100 + 32 * w), "MSTORE"]
-        roff, rsize = r.choice([0, 32, 64, 0x140]), r.choice([0, 1, 32, 32, 64])
+        roff, rsize = r.choice([0, 32, 64, 0x140]), r.choice([0, 1, 32, 32, 64, 96])
         if r.random() < 0.5:                            # dirty return area
             out += self.expr(1) + [("push", roff), "MSTORE"]
         out += [("push", rsize), ("push", roff), ("push", asize), ("push", 0x100)]
@@ -235,14 +235,25 @@ class CoreGen:
         """a small callee: a few statements, maybe a branch on its calldata, then return / revert / invalid / stop"""
         r = self.rng
         items = []
+        if r.random() < 0.3:
+            # a context probe: msg.sender / address(this) / msg.value of the frame, returned (and sometimes stored), so
+            # that the per-kind rules of CALL / CALLCODE / DELEGATECALL / STATICCALL are visible in the caller's memory
+            self.count("callee:context-probe")
+            items = ["CALLER", ("push", 0), "MSTORE", "ADDRESS", ("push", 32), "MSTORE", "CALLVALUE", ("push", 64), "MSTORE"]
+            if r.random() < 0.5:
+                items += ["CALLER", ("push", 3), "SSTORE"]
+            self.count("callee:" + "RETURN")
+            return items + [("push", r.choice([64, 96])), ("push", 0), r.choice(["RETURN", "RETURN", "REVERT"])]
         if r.random() < 0.8:
             # make the frame's context and its writes observable: msg.sender / address / value into memory (returned) or
             # storage (compared per account; rolled back if the frame fails; refused in a static frame)
-            items += r.choice([
+            probes = [
                 ["CALLER", ("push", 0), "MSTORE"], ["ADDRESS", ("push", 32), "MSTORE"], ["CALLVALUE", ("push", 0), "MSTORE"],
                 ["CALLER", ("push", 3), "SSTORE"], ["ADDRESS", ("push", 2), "TSTORE"], [("push", 7), ("push", 1), "SSTORE"],
-                ["CALLDATASIZE", ("push", 32), "MSTORE"],
-            ])
+                ["CALLDATASIZE", ("push", 32), "MSTORE"], ["CALLER", ("push", 32), "MSTORE"],
+            ]
+            for probe in r.sample(probes, r.choice([1, 1, 2, 3])):
+                items += probe
             self.count("callee:prelude")
         if self.targets and r.random() < 0.6:
             items += self.call_site()           # a nested call (the static flag must be inherited through it)
